@@ -11,6 +11,7 @@ use opaque_ke::keypair::{KeyPair, PrivateKey, PublicKey, SecretKey};
 use opaque_ke::ksf::Ksf;
 use opaque_ke::*;
 use std::cell::RefCell;
+use sha2::digest as digest_shim;
 
 // ------------------------------------------------------------------------------------------------
 // errors, matched on the enum variant (never on Debug text)
@@ -196,11 +197,22 @@ impl CustomCode for RemoteErr {
         self.0
     }
 }
-pub struct Remote<KG: KeGroup>(PrivateKey<KG>);
+/// A handle-style external key: the private key lives "elsewhere" (here: in `real`); what the library can serialize
+/// and later deserialize is only an opaque HANDLE of the same length.  The handle is itself a valid private-key
+/// encoding of the group (a decoy), so that code which wrongly interprets the serialized form as the key itself does
+/// not fail loudly but computes with the wrong key - and is caught by the differential oracle.
+pub struct Remote<KG: KeGroup> {
+    real: PrivateKey<KG>,
+    handle: GenericArray<u8, KG::SkLen>,
+}
+thread_local! {
+    /// handle bytes -> real private key bytes (the "key store")
+    static HANDLES: RefCell<std::collections::HashMap<Vec<u8>, Vec<u8>>> = RefCell::new(std::collections::HashMap::new());
+}
 impl<KG: KeGroup> Clone for Remote<KG> {
     fn clone(&self) -> Self {
         SK_LOG.with(|l| l.borrow_mut().push("clone"));
-        Remote(self.0.clone())
+        Remote { real: self.real.clone(), handle: self.handle.clone() }
     }
 }
 impl<KG: KeGroup> Remote<KG> {
@@ -216,25 +228,38 @@ impl<KG: KeGroup> Remote<KG> {
         }
         Ok(())
     }
+    /// put a private key into the key store; returns the external key object
+    fn store<CS: voprf::CipherSuite>(sk: &[u8]) -> Result<Self, E>
+    where
+        <CS::Hash as digest_shim::OutputSizeUser>::OutputSize: generic_array::typenum::IsLess<generic_array::typenum::U256> + generic_array::typenum::IsLessOrEqual<<CS::Hash as digest_shim::core_api::BlockSizeUser>::BlockSize>,
+    {
+        let real = PrivateKey::<KG>::deserialize(sk).map_err(ie)?;
+        // decoy handle: a valid private key of the group derived from the real key bytes
+        let decoy = KG::derive_auth_keypair::<CS>(GenericArray::clone_from_slice(sk)).map_err(ie)?;
+        let handle = KG::serialize_sk(decoy);
+        HANDLES.with(|h| h.borrow_mut().insert(handle.to_vec(), sk.to_vec()));
+        Ok(Remote { real, handle })
+    }
 }
 impl<KG: KeGroup> SecretKey<KG> for Remote<KG> {
     type Error = RemoteErr;
     type Len = KG::SkLen;
     fn diffie_hellman(&self, pk: PublicKey<KG>) -> Result<GenericArray<u8, KG::PkLen>, InternalError<RemoteErr>> {
         Self::tick("diffie_hellman")?;
-        self.0.diffie_hellman(pk).map_err(InternalError::into_custom)
+        self.real.diffie_hellman(pk).map_err(InternalError::into_custom)
     }
     fn public_key(&self) -> Result<PublicKey<KG>, InternalError<RemoteErr>> {
         Self::tick("public_key")?;
-        self.0.public_key().map_err(InternalError::into_custom)
+        self.real.public_key().map_err(InternalError::into_custom)
     }
     fn serialize(&self) -> GenericArray<u8, Self::Len> {
         SK_LOG.with(|l| l.borrow_mut().push("serialize"));
-        self.0.serialize()
+        self.handle.clone()
     }
     fn deserialize(input: &[u8]) -> Result<Self, InternalError<RemoteErr>> {
         Self::tick("deserialize")?;
-        PrivateKey::deserialize(input).map(Remote).map_err(InternalError::into_custom)
+        let real = HANDLES.with(|h| h.borrow().get(input).cloned()).ok_or(InternalError::Custom(RemoteErr(404)))?;
+        Ok(Remote { real: PrivateKey::deserialize(&real).map_err(InternalError::into_custom)?, handle: GenericArray::clone_from_slice(input) })
     }
 }
 fn sk_arm(n: Option<usize>) {
@@ -288,6 +313,8 @@ pub trait Suite: Sync {
 
 /// operations with the server's static key behind the external-key interface (C18)
 pub trait RemoteSuite: Sync {
+    /// put the private key into the harness key store; returns the opaque handle the external key serializes to
+    fn r_handle(&self, sk: &[u8]) -> R<Vec<u8>>;
     fn r_keypair(&self, sk: &[u8], fail_at: Option<usize>) -> (R<Vec<u8>>, Vec<String>);
     fn r_setup_with_key(&self, t: &mut Tape, sk: &[u8], fail_at: Option<usize>) -> (R<Vec<u8>>, Vec<String>);
     fn r_setup_recode(&self, setup: &[u8], fail_at: Option<usize>) -> (R<Vec<u8>>, Vec<String>);
@@ -518,19 +545,22 @@ macro_rules! suite {
 macro_rules! remote {
     ($name:ident, $ke:ty) => {
         impl RemoteSuite for $name {
+            fn r_handle(&self, sk: &[u8]) -> R<Vec<u8>> {
+                Ok(Remote::<$ke>::store::<<$name as CipherSuite>::OprfCs>(sk)?.handle.to_vec())
+            }
             fn r_keypair(&self, sk: &[u8], fail_at: Option<usize>) -> (R<Vec<u8>>, Vec<String>) {
-                let inner = match PrivateKey::<$ke>::deserialize(sk) {
-                    Ok(k) => Remote(k),
-                    Err(e) => return (Err(ie(e)), vec![]),
+                let inner = match Remote::<$ke>::store::<<$name as CipherSuite>::OprfCs>(sk) {
+                    Ok(k) => k,
+                    Err(e) => return (Err(e), vec![]),
                 };
                 sk_arm(fail_at);
                 let r = KeyPair::<$ke, Remote<$ke>>::from_private_key(inner).map(|kp| kp.public().serialize().to_vec()).map_err(pe);
                 (r, sk_disarm())
             }
             fn r_setup_with_key(&self, t: &mut Tape, sk: &[u8], fail_at: Option<usize>) -> (R<Vec<u8>>, Vec<String>) {
-                let inner = match PrivateKey::<$ke>::deserialize(sk) {
-                    Ok(k) => Remote(k),
-                    Err(e) => return (Err(ie(e)), vec![]),
+                let inner = match Remote::<$ke>::store::<<$name as CipherSuite>::OprfCs>(sk) {
+                    Ok(k) => k,
+                    Err(e) => return (Err(e), vec![]),
                 };
                 let kp = match KeyPair::<$ke, Remote<$ke>>::from_private_key(inner) {
                     Ok(k) => k,
